@@ -302,10 +302,22 @@ IMP_ID = ("From Coq Require Import List ZArith Bool. Import ListNotations.\n"
 def run_idrange(chk, quick, replay):
     if replay is not None:
         pts = [replay["cp"]]
-    out = core.harness("c04", "idrange", [{"timeout_ms": 60000}])[0]
+    out = core.harness("c04", "idrange", [{"timeout_ms": 20000}])[0]
     if "runs" not in out:
-        chk.violation("IdInRange does not return normally on every code point: %s" % json.dumps(out)[:200], "idrange:abnormal",
-                      {"kind": "idrange-abnormal", "observed": out})
+        # find a concrete code point on which the lookup does not return
+        probes = [0x41, 0x24, 0x23, 0x2a, 0x30, 0x5f, 0x7b, 0xc0, 0x4e00, 0x4e2d, 0xffdc, 0xffdd, 0xffff, 0, 0x3b1, 0x30a1, 0xac00]
+        bad = None
+        for c in (probes if replay is None else [replay.get("cp", 0x41)]):
+            o1 = core.harness("c04", "idin", [{"cp": c, "timeout_ms": 1500}])[0]
+            if "in" not in o1:
+                bad = (c, o1)
+                break
+        if bad:
+            chk.violation("IdInRange(U+%04X) does not return normally: %s" % (bad[0], json.dumps(bad[1])[:120]), "idrange:abnormal",
+                          {"kind": "idrange", "cp": bad[0], "observed": bad[1]})
+        else:
+            chk.violation("IdInRange does not return normally on every code point: %s" % json.dumps(out)[:200], "idrange:abnormal",
+                          {"kind": "idrange-abnormal", "observed": out}, no_input=True)
         return
     runs = [tuple(r) for r in out["runs"]]
     rc, o = core.coq_eval("c04t_%d" % os.getpid(), IMP_ID + "Set Printing Depth 1000000.\nSet Printing Width 200.\n"
@@ -373,7 +385,7 @@ def run_idrange(chk, quick, replay):
 # ------------------------------------------------------------------------------------------------ tokens
 
 IMP_TOK = ("From Coq Require Import List ZArith Bool. Import ListNotations.\n"
-           "From Zn.model Require Import Tokenize.\n")
+           "From Zn.model Require Import Tokenize TokSpec TokDoc.\n")
 KEYWORDS = ["令", "为", "以", "其", "或", "且", "之", "的", "设为", "恒为", "新建", "何为", "不为", "如果", "再如", "输出", "如何", "拦截", "导入",
             "定义", "得到", "输入", "否则", "每当", "遍历", "等于", "大于", "小于", "抛出", "不等于", "不大于", "不小于", "继续循环", "结束循环"]
 GLYPHS = sorted(set("".join(KEYWORDS) + "注取对成是"))
@@ -483,16 +495,36 @@ def run_tokens(chk, quick, corpus, replay):
         sysm = systematic_texts()
         chk.dist("tokens:systematic", len(sysm))
         texts += sysm
-        N = 1500 if quick else 20000
+        N = 1200 if quick else 20000
         for _ in range(N):
             texts.append(gen_text(rng))
         chk.dist("tokens:generated", N)
     outs = core.harness("c04", "tokens", [{"cps": cps(s)} for s in texts])
-    model = core.coq_run_cases("c04k", IMP_TOK, "fun s => encode_lex (lex s)", [core.zlist(cps(s)) for s in texts], shard=400)
+    # documented lexer (spec) and the lexer over the regenerated parseKeyword tree (implementation model), both inside Coq
+    docs = core.coq_run_cases("c04k", IMP_TOK, "fun s => encode_lex (lex_doc s)", [core.zlist(cps(s)) for s in texts], shard=400)
+    # the second model is only needed to explain a disagreement
+    suspects = [i for i, (o, m) in enumerate(zip(outs, docs)) if impl_obs(o) != m]
+    impls = {}
+    if suspects:
+        res = core.coq_run_cases("c04j", IMP_TOK, "fun s => encode_lex (lex_impl s)", [core.zlist(cps(texts[i])) for i in suspects], shard=400)
+        impls = dict(zip(suspects, res))
+    both = [(m, impls.get(i, m)) for i, m in enumerate(docs)]
     shown = 0
-    for s, o, m in zip(texts, outs, model):
+    expect = {}
+    for c in corpus:
+        if c.get("kind") == "tokens" and "expect" in c:
+            expect[c["text"] if "text" in c else text(c["cps"])] = c["expect"]
+    for s, o, mm in zip(texts, outs, both):
+        m, mi = mm
         chk.count(["tokens", s], nontrivial=len(s) > 1)
         imp = impl_obs(o)
+        if imp is None and m[0][0] == 2:
+            # abnormal behaviour inside a construct the model does not cover (string literal, 注…： comment, line break):
+            # not C04's subject (C05/C10), recorded but not judged here
+            chk.dist("tokens:abnormal-outside-model")
+            if len(chk.coverage.setdefault("not_judged", [])) < 5:
+                chk.coverage["not_judged"].append({"text": s, "observed": o})
+            continue
         if imp is None:
             chk.violation("zh.NextToken does not return normally on %r: %s" % (s, json.dumps(o, ensure_ascii=False)[:150]),
                           "tokens:abnormal", {"kind": "tokens", "cps": cps(s), "text": s, "observed": o})
@@ -500,22 +532,37 @@ def run_tokens(chk, quick, corpus, replay):
         endk = m[0][0]
         chk.dist("tokens:end-" + {0: "eof", 1: "invalid-char", 2: "unsupported(prefix compared)", 3: "hang", 4: "out-of-fuel"}.get(endk, "?"))
         chk.dist("tokens:count", len(m) - 1)
-        if endk == 2:
-            ok = imp[1:1 + len(m) - 1] == m[1:]
-            # an error raised by the unmodelled part may hide tokens the model produced before it: errors abort the whole stream
-            if not ok and imp[0][0] in (1, 9) and len(imp) == 1:
-                ok = True
-        elif endk in (3, 4):
-            ok = False
-        else:
-            ok = imp == m
+
+        def agrees(mod):
+            k = mod[0][0]
+            if k == 2:
+                ok = imp[1:1 + len(mod) - 1] == mod[1:]
+                # an error raised by the unmodelled part aborts the whole stream, hiding the tokens before it
+                return ok or (imp[0][0] in (1, 9) and len(imp) == 1)
+            if k in (3, 4):
+                return False
+            return imp == mod
         if shown < 3 and len(m) > 3 and endk == 0:
             shown += 1
             chk.sample({"text": s, "tokens": m[1:]})
-        if not ok:
-            chk.violation(describe(s, imp, m), tok_signature(s, imp, m),
-                          {"kind": "tokens", "cps": cps(s), "text": s, "expected": m, "observed": imp,
-                           "replay_cmd": "./check C04 --replay <this file>"})
+        if s in expect:
+            want = [list(t) for t in expect[s]]
+            got = [t[:3] for t in imp[1:]]
+            if got != want:
+                chk.violation("documented example %r: tokens (type,start,end) %s, the manual prescribes %s" % (s, got, want),
+                              "tokens:documented-example", {"kind": "tokens", "cps": cps(s), "text": s, "expected": want, "observed": got})
+                continue
+        if agrees(m):
+            continue
+        if agrees(mi) and m != mi:
+            what = "keywords not cut as documented; " + describe(s, imp, m)
+        elif m == mi:
+            what = describe(s, imp, m)
+        else:
+            what = "implementation, documented lexer and regenerated-tree lexer all differ; " + describe(s, imp, m)
+        chk.violation(what, tok_signature(s, imp, m),
+                      {"kind": "tokens", "cps": cps(s), "text": s, "expected": m, "observed": imp, "model_with_regenerated_tree": mi,
+                       "replay_cmd": "./check C04 --replay <this file>"})
 
 
 # ------------------------------------------------------------------------------------------------ entry
